@@ -1,3 +1,146 @@
-(* C12 part a - statements only (placeholder while the proofs are being built). *)
-From Coq Require Import List ZArith.
-From Verif.C12a_Containers Require Import ListAux SMap RMap Heap Ring Corr.
+(* C12 (part a) - remaining containers are equivalent to their abstract models. Statements only.
+   ShrinkingMap, RandomMap, PriorityQueue (+ generalheap, timed.PriorityQueue), Queue, RingBuffer, Stack. *)
+From Coq Require Import List ZArith Bool Arith Permutation.
+From Verif.C12a_Containers Require Import ListAux SMap SMapProofs RMap RMapProofs Heap HeapIndex HeapProofs Ring RingProofs.
+Import ListNotations.
+
+Section C12a.
+Variables (K V P T : Type) (keqb : K -> K -> bool) (kzero : K) (cmp : P -> P -> Z) (pzero : P) (vzero : V) (zero : T).
+Hypothesis keqb_spec : forall a b, keqb a b = true <-> a = b.       (* K is Go-comparable: == decides equality *)
+
+(* ShrinkingMap: for every option setting (ratio, count) and every operation history, all outputs and the final
+   contents equal those of a plain map that has no options, no deletion counter and never shrinks. *)
+Theorem C12_shrinkingmap_shrink_unobservable : forall (o : SMap.opts) (h : list (SMap.ev K V)),
+  snd (SMap.run keqb o SMap.new h) = snd (SMap.prun keqb [] h) /\
+  SMap.m (fst (SMap.run keqb o SMap.new h)) = fst (SMap.prun keqb [] h).
+Proof. exact (shrink_unobservable K V keqb keqb_spec). Qed.
+
+(* RandomMap: dense keys with exact back-indices in every reachable state, for every option setting. *)
+Theorem C12_randommap_invariant : forall (o : SMap.opts) (h : list (rev K V)),
+  rinv K V keqb kzero (fst (rrun keqb kzero o rnew h)).
+Proof. exact (rm_reachable_inv K V keqb kzero keqb_spec). Qed.
+
+(* every index the PRNG can return (i < size) yields a member; an empty map yields nothing *)
+Theorem C12_randommap_random_key_member : forall o (s : rst K V) i, rinv K V keqb kzero s -> i < rsize s ->
+  exists k v j, snd (rstep keqb kzero o s (RRandomKey i)) = ROKey (Some k) /\ SMap.find keqb k (SMap.m (raw s)) = Some (v, j).
+Proof. exact (random_key_member K V keqb kzero). Qed.
+
+Theorem C12_randommap_random_entry_member : forall o (s : rst K V) i, rinv K V keqb kzero s -> i < rsize s ->
+  exists k v j, snd (rstep keqb kzero o s (RRandomEntry i)) = ROGet (Some v) /\ SMap.find keqb k (SMap.m (raw s)) = Some (v, j).
+Proof. exact (random_entry_member K V keqb kzero). Qed.
+
+Theorem C12_randommap_random_pick_empty : forall o (s : rst K V) i, rinv K V keqb kzero s -> rsize s = 0 ->
+  snd (rstep keqb kzero o s (RRandomKey i)) = ROKey None /\ snd (rstep keqb kzero o s (RRandomEntry i)) = ROGet None.
+Proof. exact (random_pick_empty K V keqb kzero). Qed.
+
+(* RandomUniqueEntries(count): min(count, size) entries of pairwise distinct keys, each a current entry,
+   for every permutation rand.Perm can return *)
+Theorem C12_randommap_random_unique_entries : forall o (s : rst K V) count perm, rinv K V keqb kzero s ->
+  Permutation perm (seq 0 (length (keys s))) ->
+  exists kvs, picks_ok K V keqb s (Z.to_nat count) kvs /\
+    (snd (rstep keqb kzero o s (RRandomUniqueEntries count perm)) = ROValsSeq (map snd kvs) \/
+     snd (rstep keqb kzero o s (RRandomUniqueEntries count perm)) = ROValsSet (map snd kvs)).
+Proof. exact (random_unique_entries K V keqb kzero keqb_spec). Qed.
+
+(* Set / Delete act on the projected contents exactly like a plain map *)
+Theorem C12_randommap_set_plain : forall (s : rst K V) k v,
+  rentries (rset keqb k v s) = SMap.put keqb k v (rentries s).
+Proof. exact (rm_set_plain K V keqb). Qed.
+
+Theorem C12_randommap_delete_plain : forall o (s : rst K V) k, rinv K V keqb kzero s ->
+  rentries (fst (rdelete keqb kzero o k s)) = SMap.del keqb k (rentries s) /\
+  snd (rdelete keqb kzero o k s) = match SMap.find keqb k (rentries s) with Some v => Some (v, true) | None => None end.
+Proof. exact (rm_delete_plain K V keqb kzero keqb_spec). Qed.
+
+(* PriorityQueue / generalheap (any comparator): index fields are exact in every reachable state *)
+Theorem C12_pq_index_invariant : forall h : list (hev P V), idx_ok P V (fst (hrun cmp pzero vzero hnew h)).
+Proof. exact (heap_reachable_idx_ok P V cmp pzero vzero). Qed.
+
+Theorem C12_pq_push_contents : forall (s : hst P V) p v, idx_ok P V s ->
+  Permutation (length (prios s) :: arr s) (arr (fst (hstep cmp pzero vzero s (HPush p v)))) /\
+  prio pzero (fst (hstep cmp pzero vzero s (HPush p v))) (length (prios s)) = p /\
+  val vzero (fst (hstep cmp pzero vzero s (HPush p v))) (length (prios s)) = v.
+Proof. exact (push_contents P V cmp pzero vzero). Qed.
+
+(* PARTIAL (ordering not proved, see pop_min_full_statement): Pop returns the root, which is what Peek shows,
+   and removes exactly that element. *)
+Theorem C12_pq_pop_min_partial : forall (s : hst P V), idx_ok P V s -> arr s <> [] ->
+  snd (hstep cmp pzero vzero s HPop) = HOVal (Some (val vzero s (at_ s 0))) /\
+  snd (hstep cmp pzero vzero s HPeek) = HOVal (Some (val vzero s (at_ s 0))) /\
+  Permutation (arr s) (at_ s 0 :: arr (fst (hstep cmp pzero vzero s HPop))) /\
+  ix P V (fst (hstep cmp pzero vzero s HPop)) (at_ s 0) = (-1)%Z.
+Proof. exact (pop_contents P V cmp pzero vzero). Qed.
+(* full statement that remains open: in every reachable state the root is a minimum for a strict weak order *)
+Definition C12_pq_pop_min_full_statement : Prop := pop_min_full_statement P V cmp pzero vzero.
+
+Theorem C12_pq_popall_contents : forall (s : hst P V) lim, idx_ok P V s ->
+  let r := pop_loop cmp pzero (S (length (arr s))) lim s [] in Permutation (arr s) (snd r ++ arr (fst r)).
+Proof. exact (pop_loop_contents P V cmp pzero). Qed.
+
+(* removal handles: exactly their element; idempotent; dead handles do nothing *)
+Theorem C12_pq_remove_exact : forall (s : hst P V) id, idx_ok P V s -> In id (arr s) ->
+  let s' := fst (hstep cmp pzero vzero s (HRemove id)) in
+  Permutation (arr s) (id :: arr s') /\ ~ In id (arr s') /\ fst (hstep cmp pzero vzero s' (HRemove id)) = s'.
+Proof. exact (remove_exact P V cmp pzero vzero). Qed.
+
+Theorem C12_pq_remove_dead_noop : forall (s : hst P V) id, idx_ok P V s -> ~ In id (arr s) ->
+  hstep cmp pzero vzero s (HRemove id) = (s, HOUnit).
+Proof. exact (remove_dead_noop P V cmp pzero vzero). Qed.
+
+(* Queue: ring arithmetic refines the bounded FIFO (Offer drops, ForceOffer evicts the oldest), capacity >= 1 *)
+Theorem C12_queue_refines : forall cap (h : list (qev T)), 0 < cap ->
+  snd (qrun zero (qnew zero cap) h) = snd (qspec_run cap [] h).
+Proof. exact (queue_refines T zero). Qed.
+
+(* RingBuffer: ToSlice lists the last `capacity` added elements, newest first, capacity >= 1 *)
+Theorem C12_ringbuffer_refines : forall cap (h : list (rbev T)), 0 < cap ->
+  snd (rbrun zero (rbnew zero cap) h) = snd (rbspec_run cap [] h).
+Proof. exact (ring_refines T zero). Qed.
+
+(* Stack (simple; the thread-safe one adds a mutex): LIFO *)
+Theorem C12_stack_refines : forall h : list (sev T), snd (srun zero [] h) = snd (sspec_run [] h).
+Proof. exact (stack_refines T zero). Qed.
+
+End C12a.
+
+(* non-vacuity: the guarded statements have non-trivial instances *)
+Example C12a_nonvacuous_queue :
+  snd (qrun 0%Z (qnew 0%Z 2) [QOffer 1%Z; QOffer 2%Z; QOffer 3%Z; QForceOffer 4%Z; QPoll; QPoll; QPoll]) =
+  [QOBool true; QOBool true; QOBool false; QOOpt (Some 1%Z); QOOpt (Some 2%Z); QOOpt (Some 4%Z); QOOpt None].
+Proof. vm_compute. reflexivity. Qed.
+Example C12a_nonvacuous_ring :
+  snd (rbrun 0%Z (rbnew 0%Z 2) [RBAdd 1%Z; RBAdd 2%Z; RBAdd 3%Z; RBToSlice]) =
+  [RBOBool true; RBOBool true; RBOBool true; RBOList [3%Z; 2%Z]].
+Proof. vm_compute. reflexivity. Qed.
+Example C12a_nonvacuous_rinv :
+  exists s : rst nat Z, rinv nat Z Nat.eqb 0 s /\ rsize s = 2 /\ keys s = [2; 1].
+Proof.
+  exists (fst (rrun Nat.eqb 0 (mkOpts 1 2 2) rnew [RSet 0 10%Z; RSet 1 11%Z; RSet 2 12%Z; RDelete 0])).
+  split; [apply rm_reachable_inv; exact Nat.eqb_eq|]. vm_compute. auto.
+Qed.
+Example C12a_nonvacuous_idx_ok :
+  let cmpz := fun a b : Z => match Z.compare a b with Lt => (-1)%Z | Eq => 0%Z | Gt => 1%Z end in
+  exists s : hst Z Z, idx_ok Z Z s /\ arr s = [3; 0; 2] /\ In 2 (arr s).
+Proof.
+  intros cmpz.
+  exists (fst (hrun cmpz 0%Z 0%Z hnew [HPush 5%Z 0%Z; HPush 3%Z 1%Z; HPush 4%Z 2%Z; HPush 1%Z 3%Z; HRemove 1])).
+  split; [apply heap_reachable_idx_ok|]. vm_compute. auto.
+Qed.
+
+Print Assumptions C12_shrinkingmap_shrink_unobservable.
+Print Assumptions C12_randommap_invariant.
+Print Assumptions C12_randommap_random_key_member.
+Print Assumptions C12_randommap_random_entry_member.
+Print Assumptions C12_randommap_random_pick_empty.
+Print Assumptions C12_randommap_random_unique_entries.
+Print Assumptions C12_randommap_set_plain.
+Print Assumptions C12_randommap_delete_plain.
+Print Assumptions C12_pq_index_invariant.
+Print Assumptions C12_pq_push_contents.
+Print Assumptions C12_pq_pop_min_partial.
+Print Assumptions C12_pq_popall_contents.
+Print Assumptions C12_pq_remove_exact.
+Print Assumptions C12_pq_remove_dead_noop.
+Print Assumptions C12_queue_refines.
+Print Assumptions C12_ringbuffer_refines.
+Print Assumptions C12_stack_refines.
